@@ -1,5 +1,6 @@
 import Ccp.Py.Basic
 import Ccp.Gen.Tables
+import Ccp.Model.Tree
 /-!
 Model of `convert_junos_to_ios()` / `BraceParse` (ciscoconfparse2.py), i.e. of what
 `CiscoConfParse(..., syntax='junos')` does to its input lines before the ordinary
@@ -192,5 +193,20 @@ def parentsFrom (pre : List Nat) : List Nat → List (Option Nat)
   | d :: ds => lastSmaller d pre :: parentsFrom (pre ++ [d]) ds
 
 def indentParents (lines : List Str) : List (Option Nat) := parentsFrom [] (lines.map indent)
+
+/-! ### the whole brace-syntax parse, on the shared tree model -/
+
+/-- the options `CiscoConfParse(lines, syntax='junos')` bootstraps with
+(`get_syntax_comment_delimiters('junos')`, `ignore_blank_lines=False`) -/
+def junosCfg : Tree.Cfg := { ios := false, delims := ['#'], ignoreBlank := false }
+
+/-- `CiscoConfParse(lines, syntax='junos')`: convert, then `ConfigList.bootstrap` on the
+converted lines.  For a brace syntax the bootstrap is pass 1 only (`if syntax not in
+ALL_BRACE_SYNTAX:` guards the banner and macro passes); `commit()` re-bootstraps from the
+same texts and gets the same tree. -/
+def junosParse (lines : List Str) : Except Err Tree.T :=
+  match junosToIos lines with
+  | .ok out => .ok { texts := out, parents := Tree.linkByIndent junosCfg out, keep := out.map (fun _ => false) }
+  | .error e => .error e
 
 end Ccp.Brace
